@@ -16,7 +16,7 @@ META = {
     "partial": True,
     "level_text": "Loop contracts with termination variants on streams of ANY length and content: read_null_terminated_string (C06 "
                   "unit), the ARSCHeader dummy-data skip loop, the DebugInfoItem opcode loop, the HiddenApiClassDataItem offsets "
-                  "loop (variant: bytes left), the linear-sweep loop (C02 unit, variant max_idx - idx) and the chunk loop of AXMLParser._do_next (C26 unit chunk_loop_terminates, "
+                  "loop (variant: bytes left), the backward end-of-central-directory search of APK.parse_v2_v3_signature (variant: stream position), the linear-sweep loop (C02 unit, variant max_idx - idx) and the chunk loop of AXMLParser._do_next (C26 unit chunk_loop_terminates, "
                   "variant bytes left, nested loops under their own contracts). Proof (all contents of short inputs): the loops named in the property are executed on streams of symbolic bytes "
                   "and every path is proved to end (result or error): read_null_terminated_string with no NUL at all (0..257 bytes), "
                   "the ARSCHeader dummy-data skip loop (8..14 bytes, every content), the DebugInfoItem opcode loop (0..5 bytes). The "
@@ -409,6 +409,59 @@ def hidden_api_loop_unbounded(U):
     U.ensures("terminates with an item or an error", o.ok or o.raised(m.__pyvc_struct__.error, ValueError), exc=repr(o.exc))
 
 
+# -- APK.parse_v2_v3_signature: backward search for the end-of-central-directory record (`while f.tell() > 0`).  Each iteration
+# steps one byte back, reads four and -- unless they are the record's magic -- steps back over them.  Invariant: 0 <= pos and
+# (pos == 0 or pos + 21 <= len) (so every 4-byte read is complete).  Variant: pos.
+EOCD_SEARCH = LoopSpec("APK.parse_v2_v3_signature#0",
+                       invariant=lambda s, L, k: And(L["f"].pos >= 0, Or(L["f"].pos == 0, L["f"].pos + 21 <= L["f"].buf.length)),
+                       variant=lambda s, L, k: L["f"].pos,
+                       havoc={"size_central": lambda s, L: None, "offset_central": lambda s, L: None},
+                       heap=("f",), const=("self",))
+
+
+class _IoU:
+    """io module stand-in: BytesIO over a symbolic buffer is the symbolic stream model"""
+
+    def BytesIO(self, data=b""):
+        if isinstance(data, ubuf.SymBuf):
+            return ubuf.SymStreamU(data, 0, "f")
+        return io.BytesIO(data)
+
+    def __getattr__(self, n):
+        return getattr(io, n)
+
+
+@unit("C35", covers=[(APKF, "APK.parse_v2_v3_signature")], loops={(APKF, "APK.parse_v2_v3_signature", 0): EOCD_SEARCH}, samples=200,
+      terminates=True, max_paths=400,
+      note="loop contract: archive bytes of any length and content; variant = stream position. The code behind the loop is cut at "
+           "its first check (the receiver's central-directory magic is a stand-in no four bytes equal), its loop #1 stays bounded-only")
+def eocd_search_unbounded(U):
+    from pyvc.unit import bare
+    m = U.mod(APKF)
+    a = bare(m.APK)
+    a._is_signed_v2 = a._is_signed_v3 = a._is_signed_v31 = None
+    a._v2_blocks = []
+    if U.mode != "sym":
+        n = U.int("n", 0, 60)
+        data = bytearray(bytes(U.bytes("data", n)))
+        at = U.int("at", 0, 80)
+        if at + 22 <= n and U.int("plant", 0, 1):
+            data[at:at + 4] = b"PK\x05\x06"
+        a.get_raw = lambda: bytes(data)
+        o = U.call(a.parse_v2_v3_signature)
+        import struct
+        U.ensures("terminates: returns, or rejects the archive", o.ok or o.raised(m.BrokenAPKError, struct.error, ValueError), exc=repr(o.exc))
+        return
+    U.substitute(m, "io", _IoU(), "BytesIO over a symbolic buffer = symbolic stream model")
+    mem = ubuf.SymMem("apk")
+    buf = ubuf.SymBuf(mem, 0, U.int("len", 0, ubuf.MAXLEN))
+    a.get_raw = lambda: buf
+    a._PK_CENTRAL_DIR = b"PK\x01\x02+"        # five bytes: the check behind the loop rejects every archive (cut, see note)
+    o = U.call(a.parse_v2_v3_signature)
+    U.ensures("the search loop is left: the method returns or rejects the archive",
+              o.ok or o.raised(m.BrokenAPKError, m.__pyvc_struct__.error, ValueError), exc=repr(o.exc))
+
+
 # ------------------------------------------------------------------------------------------------
 # Inventory of the `while` loops of the three parser files (count-driven `for` loops iterate finite sequences and terminate
 # structurally as long as their bodies do).  Each loop is either under a termination contract (variant proved for inputs of any
@@ -422,6 +475,7 @@ VARIANT_PROVED = {
     (AXML, "AXMLParser._do_next", 0): "C26 chunk_loop_terminates: bytes left",
     (AXML, "ARSCHeader.__init__", 0): "C35 arsc_header_skip_loop_unbounded: len - pos",
     (APKF, "APK.parse_signatures_or_digests", 0): "C33 digest_sequence_unbounded: bytes left",
+    (APKF, "APK.parse_v2_v3_signature", 0): "C35 eocd_search_unbounded: stream position",
 }
 EXECUTED_FOR_ALL_INPUTS = {
     (DEX, "writeuleb128", 0): "C03: executed symbolically for every 32-bit value (at most 5 iterations)",
@@ -435,7 +489,6 @@ BOUNDED_ONLY = {
     (AXML, "ARSCParser.__init__", 0): "chunk loop: seeks to header.start + size, size >= 8 (whole_parsers)",
     (AXML, "ARSCParser.__init__", 1): "package chunk loop: seeks to header.end (whole_parsers)",
     (AXML, "ARSCParser._analyse", 1): "index walk over the parsed package list",
-    (APKF, "APK.parse_v2_v3_signature", 0): "backward search for the end-of-central-directory record: one byte per iteration (whole_parsers apk)",
     (APKF, "APK.parse_v2_v3_signature", 1): "signing-block pairs: at least 12 bytes per iteration (C33 generated_blocks, whole_parsers)",
     (APKF, "APK.parse_v3_signing_block", 0): "signers: length-prefixed (C33 generated_blocks)",
     (APKF, "APK.parse_v3_signing_block", 1): "certificates: length-prefixed (C33 generated_blocks)",
